@@ -66,3 +66,18 @@ pub fn order_for_lengths(kind: u8, lens: &[usize]) -> Vec<u32> {
     p.set_match_kind(kind_from_u8(kind));
     p.order.iter().map(|x| x.as_u32()).collect()
 }
+
+/// The verification primitives of the packed searchers, callable as units:
+/// `is_prefix(haystack[from..], needle)` (Rabin-Karp) and
+/// `Pattern::is_prefix_raw(start, end)` (Teddy), both built on `is_equal_raw`.
+pub fn prim_is_prefix(hay: &[u8], from: usize, needle: &[u8]) -> bool {
+    is_prefix(&hay[from..], needle)
+}
+
+pub fn prim_is_prefix_raw(hay: &[u8], from: usize, needle: &[u8]) -> bool {
+    assert!(from <= hay.len());
+    unsafe {
+        Pattern(needle)
+            .is_prefix_raw(hay.as_ptr().add(from), hay.as_ptr().add(hay.len()))
+    }
+}
